@@ -44,6 +44,12 @@ def documents(draw, wild=False):
                 docs.append(('+'.join(ops), j))
         if draw(st.integers(0, 2)) == 0:
             docs.append(('arbitrary', draw(jsonmut.arbitrary_json())))
+        if draw(st.booleans()):
+            # a window of the exhaustive single-key edits of the pristine document
+            sweep = jsonmut.single_key_edits(base)
+            if sweep:
+                at = draw(st.integers(0, len(sweep) - 1))
+                docs += [sweep[(at + k) % len(sweep)] for k in range(min(len(sweep), 12))]
         items.append((key, t, v, docs))
     return {'api': api, 'items': items}
 
